@@ -218,6 +218,9 @@ func (l *SnowflakeListener) acceptStreams(conn *kcp.UDPSession) error {
 		// We store "" in the map in the absence of client_ip. This log
 		// message means you should increase clientIDAddrMapCapacity.
 		log.Printf("no address in clientID-to-IP map (capacity %d)", clientIDAddrMapCapacity)
+		// Report "no address" rather than a nil net.Addr, which callers
+		// such as handleConn dereference.
+		addr = ClientMapAddr("")
 	}
 
 	smuxConfig := smux.DefaultConfig()
